@@ -1141,6 +1141,14 @@ fn node_step(b: &Built, node: &Arc<Node>, values: &[u64], now: u64, answer: bool
         b.prev_outs.iter().zip(values.iter()).map(|(o, v)| TxOut { value: Amount::from_sat(*v), script_pubkey: o.script_pubkey.clone() }).collect();
     b.world.clock.set(Duration::from_secs(now));
     let c0 = fee_control(node);
+    // what a restart would already change before this request (this domain forces some channel
+    // states in memory when it prepares a case, and an earlier check that was not followed by a
+    // signature leaves its fee in memory only): not this request's doing.  The request is the
+    // pair check + sign, as in the SignWithdrawal handler, so the gap is taken before the check.
+    let pre_gap: Vec<String> = {
+        let shadow = b.world.restart(&node.get_id());
+        fingerprint_diff(&fingerprint(node), &fingerprint(&shadow))
+    };
     let r1 = catch_unwind(AssertUnwindSafe(|| node.check_onchain_tx(&b.tx, &b.flags, &prev_outs, &b.ucks, &b.opaths)));
     let (code1, idx1) = match &r1 {
         Err(_) => (1u64, vec![]),
@@ -1234,12 +1242,6 @@ fn node_step(b: &Built, node: &Arc<Node>, values: &[u64], now: u64, answer: bool
     let mut signed = Value::Null;
     if hcode == 0 && !poisoned && b.malformed.is_empty() && b.ins.iter().all(|i| i.signable) {
         let ipaths: Vec<DerivationPath> = b.ins.iter().map(|i| i.ipath.clone()).collect();
-        // what a restart would already change before this request (this domain forces some
-        // channel states in memory when it prepares a case): not this request's doing
-        let pre_gap: Vec<String> = {
-            let shadow = b.world.restart(&node.get_id());
-            fingerprint_diff(&fingerprint(node), &fingerprint(&shadow))
-        };
         let r = catch_unwind(AssertUnwindSafe(|| node.unchecked_sign_onchain_tx(&b.tx, &ipaths, &prev_outs, b.ucks.clone())));
         match r {
             Ok(Ok(wit)) => {
